@@ -3,7 +3,7 @@
    table or constant of the library changes, the corresponding theorem no longer builds and the properties that
    import it are reported as no longer shown to hold. *)
 From Coq Require Import Bool List NArith ZArith Lia.
-From M Require Generated RegModel ParserModel FmtModel MatchModel.
+From M Require Generated RegModel ParserModel FmtModel MatchModel Dtostre.
 Import ListNotations.
 Local Open Scope Z_scope.
 
@@ -95,3 +95,14 @@ Theorem tie_ctype :
   same_class ParserModel.isspace Generated.gen_cc_isspace = true /\
   map MatchModel.tolower bytes256 = Generated.gen_tolower.
 Proof. vm_compute. repeat split. Qed.
+
+(* ---------- widths the models abstract from ---------- *)
+(* ParserModel counts result items and parameters in Z and FifoProof indexes the ring in Z: the item counters have at least 32
+   bits (a response of more than 32767 items is still framed) and the ring indices the 16 bits of SCPI_Init's queue size. *)
+Theorem tie_widths : match Generated.gen_widths with
+  | [oc; ic; wr; rd; cnt; sz] => 32 <= oc /\ 32 <= ic /\ 16 <= wr /\ 16 <= rd /\ 16 <= cnt /\ 16 <= sz
+  | _ => False end.
+Proof. vm_compute. repeat split; discriminate. Qed.
+(* Dtostre.layout works on a buffer of 32 bytes: SCPI_DTOSTRE_BUFFER_SIZE *)
+Theorem tie_dtostre_buf : Generated.gen_dtostre_buf = Z.of_nat (length (fst (Dtostre.setb (repeat Dtostre.UNINIT 32) 0 0))) /\ Generated.gen_dtostre_buf = 32.
+Proof. split; reflexivity. Qed.
